@@ -445,3 +445,65 @@ def replace_keeps_old_blob(crate):
         return True
     _check_paths(ex, res, outs, per_path)
     return P.finish(ex, res, ["old blob moved to the closed list", "first active blob"])
+
+
+def send_msg_delivers(crate):
+    """C13: Observer::send_msg (behind every background request: rotation, close, create, restore, dumps, fsync): while the
+    worker runs, the message is handed to the channel with the waiting `Sender::send` exactly once - so it is delivered
+    unless the worker is gone - and never with a call that may drop it when the channel is full; nothing panics and no
+    message is sent when the worker was not started."""
+    res = P.ObResult("send_msg_delivers")
+    fn = crate.method("Observer", "send_msg")
+    res.functions = ["Observer::send_msg (async body)"]
+    res.bounds = "one call, observer state Created / Running / Stopped, every outcome of the send"
+    from .symex import FutureV
+
+    def h_send(ex_, st_, frame, t, nf, args, dty):
+        return [(FutureV(nf, args, None, "havoc"), None)]
+
+    def h_lossy(ex_, st_, frame, t, nf, args, dty):
+        st_.events.append(("lossy_send", nf, args, None))
+        return [(ex_.fresh(dty, st_, "try_send"), None)]
+    ex = P.mk_executor(crate, cap=2, loop_bound=4, inline=[], havoc=[r"^<.* as Clone>::clone$"],
+                       extra_summaries=[(r"^(tokio::sync::mpsc::)?(bounded::)?Sender(::<.*>)?::send$", h_send),
+                                        (r"^(tokio::sync::mpsc::)?(bounded::)?Sender(::<.*>)?::(try_send|send_timeout|try_reserve|blocking_send)$", h_lossy)])
+    st = State()
+    ob = Obj("storage::observer::Observer<K>")
+    stt = Obj("storage::observer::ObserverState<K>")
+    d = z3.BitVec("observer_state", 64)
+    st.pc.append(z3.ULE(d, BV64(2)))
+    stt.discr = Sym(d, "isize")
+    ob.fields[(None, crate.field_index("Observer", "state"))] = stt
+    oc = st.new_cell(ob)
+    msg = Obj("storage::observer::Msg")
+    msg.fields[("ghost", "id")] = Sym(BV64(77), "u64")
+    outs = P.drive_async(ex, st, fn, [Ref(oc, (), False, "&storage::observer::Observer<K>"), msg])
+    res.paths = len(outs)
+    running = d == BV64(crate.enums["ObserverState"]["Running"])
+    for o in outs:
+        if o.status in ("infeasible", "unwind"):
+            continue
+        if o.status != "returned":
+            if not P.prove(ex, res, o, z3.BoolVal(False), "no panic (%s: %s)" % (o.status, o.note)):
+                break
+            continue
+        ready, _ = P.poll_payload(ex, o, o.result)
+        if not P.prove(ex, res, o, ready, "no spurious Pending"):
+            break
+        lossy = [e for e in o.events if e[0] == "lossy_send"]
+        if lossy and ex.feasible(o, z3.BoolVal(True)):
+            res.status = "violated"
+            res.detail = "the request is handed over with %s: it is dropped when the channel is full" % lossy[0][1].rsplit("::", 1)[1]
+            res.counterexample = {"call": lossy[0][1]}
+            break
+        sends = [e for e in o.events if e[0] == "await" and e[1].endswith("::send")]
+        if not P.prove(ex, res, o, z3.BoolVal(len(sends) == 1) == running, "sent exactly once iff the worker runs"):
+            break
+        if sends:
+            m = sends[0][2][1] if len(sends[0][2]) > 1 else None
+            if not (isinstance(m, Obj) and ("ghost", "id") in m.fields):
+                res.status = "violated"; res.detail = "the value sent is not the caller's message"; break
+            P.cover(ex, res, o, running, "sent")
+        else:
+            P.cover(ex, res, o, z3.Not(running), "worker not running: nothing sent")
+    return P.finish(ex, res, ["sent", "worker not running: nothing sent"])
